@@ -11,7 +11,7 @@ from vmc import estimators as E
 from vmc.inputs import sigma
 from vmc.ref import cooc as R
 from checks.c03 import build_estimator, make_corpus, est_cells, LATTICE
-from checks.c06 import ref_ngrams, _cells
+from checks.c06 import ref_ngrams, _cells, run_edges, _edge_cases
 from checks.c16 import ref_parse
 
 PROPERTY = "C01"
@@ -299,6 +299,9 @@ def subchecks(tier, seed):
         Sub("cooccurrence_transform", "I", g3, run_cooc_transform, total=sum(1 for _ in g3()),
             describe="token/timed/n-gram/multiset vectorizers fitted on pairs over {a,b} and transformed on new corpora (unseen tokens, empty sequences, a corpus 10x longer): rows = fitted vocabulary, columns = blocks x vocabulary, cells vs the reference with the fitted vocabulary",
             nontrivial_rule="new corpus has an unseen token or an empty sequence"),
+        Sub("edge_list", "I", (lambda: _edge_cases(tier)), run_edges, total=sum(1 for _ in _edge_cases(tier)),
+            describe="EdgeListVectorizer: all multisets of <= 3(4) edges x learned / user / gapped / joint dictionaries x transform edge lists with unknown labels, duplicates and missing rows/columns: shape = fitted shape, cells = summed values",
+            nontrivial_rule="every case"),
         Sub("symbolic_compiled", "N", g4, run_symbolic, total=sum(1 for _ in g4()), describe="compiled mode: every 40th symbolic case (Ngram, Skipgram, BPE)", nontrivial_rule="as above"),
         Sub("cooccurrence_transform_compiled", "N", g5, run_cooc_transform, total=sum(1 for _ in g5()), describe="compiled mode: every 9th co-occurrence transform case (token, timed)", nontrivial_rule="as above"),
     ]
